@@ -4,6 +4,7 @@
 
 mod c01;
 mod c02;
+mod c03;
 mod c04;
 mod c05;
 mod c06;
@@ -14,6 +15,7 @@ mod c14;
 mod c16;
 mod c18;
 mod drive;
+mod hostile;
 mod node;
 mod refbmca;
 mod refcodec;
@@ -81,6 +83,7 @@ fn main() {
         },
         "c01" => c01::run(&mut rep, &tier, seed, shard, replay.as_deref()),
         "c02" => c02::run(&mut rep, &tier, seed, shard, replay.as_deref()),
+        "c03" => c03::run(&mut rep, &tier, seed, shard, replay.as_deref()),
         "c04" => c04::run(&mut rep, &tier, seed, shard, replay.as_deref()),
         "c05" => c05::run(&mut rep, &tier, seed, shard, replay.as_deref()),
         "c06" => c06::run(&mut rep, &tier, seed, shard, replay.as_deref()),
